@@ -44,7 +44,14 @@ def observe(m, d, probes, flt, order=None):
             return {"exc": "the same key %r was answered %r and then %r" % (k, look[p], v)}
         look[p] = v
     look = [look[p] for p in probes]
+    # an immutable map is iterated as often as one likes: an abandoned iteration, a complete one, a nested one and one more
+    it = iter(im)
+    next(it, None)
     items = [[int(a * 2), int(b * 2), v] for (a, b), v in im]
+    nested = [[int(a * 2), int(b * 2), v] for (a, b), v in im for _ in [x for x in im][:1]]
+    again = [[int(a * 2), int(b * 2), v] for (a, b), v in im]
+    if nested != items or again != items:
+        return {"exc": "iterating the same map again gives %r (nested: %r) after %r" % (again, nested, items)}
     return {"valid": 1, "len": len(im), "items": items, "look": look}
 
 
